@@ -277,6 +277,9 @@ pub fn compare_live_vs_fresh(w: &World, hdr: &Header, label: &str) -> Vec<(Strin
 #[derive(Clone)]
 pub struct C06Model {
     pub inner: C01Model,
+    /// one-step bisimulation after a snapshot round with every operation of
+    /// the alphabet (thorough) or one per kind and target (quick)
+    pub all_probes: bool,
 }
 
 impl Model for C06Model {
@@ -384,6 +387,14 @@ impl Model for C06Model {
                 .into_iter()
                 .filter(|o| !matches!(o, Op::Snapshots | Op::Restart))
                 .collect();
+            // quick tier: one probe per kind of operation and target (the
+            // first of the alphabet); thorough: all of them
+            let probes: Vec<Op> = if self.all_probes {
+                probes
+            } else {
+                let mut seen = std::collections::BTreeSet::new();
+                probes.into_iter().filter(|o| seen.insert(o.compact())).collect()
+            };
             let project = |w: &World, o: &OpOutcome| -> String {
                 let mut c = crate::fingerprint::canonical(w);
                 if let Some(m) = c.as_object_mut() {
@@ -476,8 +487,10 @@ pub fn run(tier: &Tier, args: &[String]) -> i32 {
     let cap = crate::report::arg_value(args, "--cap")
         .and_then(|d| d.parse().ok())
         .unwrap_or(if tier.thorough { 1800 } else { 50 });
+    let thorough = tier.thorough;
     let mk = |full: bool| C06Model {
         inner: C01Model { intent: Intent::default(), full_alphabet: full, two_parents: false },
+        all_probes: thorough,
     };
     let mut configs = vec![Config {
         name: "w3-agg2".into(),
@@ -496,7 +509,7 @@ pub fn run(tier: &Tier, args: &[String]) -> i32 {
         });
     }
     e1run::run(
-        Spec { property: "C06".into(), configs, depth, wall_cap_s: cap, procs: 16, min_states: 20 },
+        Spec { property: "C06".into(), configs, depth, wall_cap_s: cap, procs: 16, min_states: 8 },
         &mut out,
     );
     out.finish()
